@@ -137,6 +137,34 @@ func c20Same(tid int, a, b reflect.Value) bool {
 	return reflect.DeepEqual(a.Interface(), b.Interface())
 }
 
+// c20Snap: a copy of a field's content that later writes to the field cannot reach
+func c20Snap(tid int, v reflect.Value) reflect.Value {
+	switch x := v.Interface().(type) {
+	case []byte:
+		return reflect.ValueOf(bytes.Clone(x))
+	case C20Rec:
+		return reflect.ValueOf(C20Rec{Got: bytes.Clone(x.Got), N: x.N})
+	case *C20Rec:
+		if x == nil {
+			return reflect.ValueOf((*C20Rec)(nil))
+		}
+		return reflect.ValueOf(&C20Rec{Got: bytes.Clone(x.Got), N: x.N})
+	case map[string]int:
+		m := map[string]int{}
+		for k, e := range x {
+			m[k] = e
+		}
+		return reflect.ValueOf(m)
+	case *int:
+		if x == nil {
+			return reflect.ValueOf((*int)(nil))
+		}
+		y := *x
+		return reflect.ValueOf(&y)
+	}
+	return reflect.ValueOf(v.Interface())
+}
+
 // ---- inputs
 
 type c20Field struct {
@@ -158,7 +186,11 @@ type c20Input struct {
 	N        int         `json:"n,omitempty"`        // joinrow: the other argument runs over all strings over c20Alpha of length <= n
 	Swap     bool        `json:"swap,omitempty"`     // joinrow: A is the name, the prefixes are enumerated
 	Head     string      `json:"head,omitempty"`     // joinrow: fixed head of the enumerated argument (cuts long rows into pieces)
-	Mode     string      `json:"mode,omitempty"`     // new | apply | decl (ParseFields; NewStore{Secrets: f.Secrets()}; f.Apply)
+	Mode     string      `json:"mode,omitempty"`     // new | apply | decl (ParseFields; NewStore{Secrets: f.Secrets()}; f.Apply) | reapply (one Fields applied to two stores / twice to one)
+	Same      bool        `json:"same,omitempty"`      // reapply: the second Apply goes to the SAME store after a Refresh installed the versions of svc2
+	Allow2    bool        `json:"allow2,omitempty"`    // reapply: AllowLookup of the second store
+	Declared2 []string    `json:"declared2,omitempty"` // reapply: StoreConfig.Secrets of the second store
+	Svc2      []c20Secret `json:"svc2,omitempty"`      // reapply: what the second service holds / the new versions for the same store
 	Scribble string      `json:"scribble,omitempty"` // decl: what the harness does to the slice Secrets() returned, after NewStore and before Apply: sort | reverse | overwrite | clear | rotate | "" (nothing)
 	Copy     bool        `json:"copy,omitempty"`     // decl: NewStore is given a copy of the slice (only the scribbling touches the original)
 	Allow    bool        `json:"allow,omitempty"`    // AllowLookup
@@ -298,6 +330,7 @@ type c20Obs struct {
 	Reqs     []string `json:"requests"`
 	Locs     []c20Loc `json:"fields"`
 	Intact   bool     `json:"store_intact_after_overwrite"`
+	First    *c20Obs  `json:"after_first_apply,omitempty"` // reapply: what was observed after the first Apply
 	Sec1     []string `json:"secrets_first,omitempty"`  // decl: what the first Secrets() call returned (copied at once)
 	Sec2     []string `json:"secrets_second,omitempty"` // decl: what Secrets() returns after NewStore, the scribbling and Apply
 	Err      string   `json:"error_text,omitempty"` // for readers only, never compared
@@ -364,7 +397,7 @@ func (r *c20Run) dtokOf(tid int, v reflect.Value) uint64 {
 func (r *c20Run) jsonTable(tid int) []string {
 	var out []string
 	done := map[uint64]bool{}
-	for _, s := range r.in.Svc {
+	for _, s := range append(append([]c20Secret{}, r.in.Svc...), r.in.Svc2...) {
 		vt := r.vtok[string(s.Value)]
 		if done[vt] {
 			continue
@@ -410,7 +443,7 @@ func c20Exec(in c20Input) (rec Record) {
 	}
 
 	r := &c20Run{in: in, vtok: map[string]uint64{}, v2tok: map[string]uint64{}, tables: map[int][]reflect.Value{}}
-	for _, s := range in.Svc {
+	for _, s := range append(append([]c20Secret{}, in.Svc...), in.Svc2...) {
 		if _, ok := r.vtok[string(s.Value)]; !ok {
 			r.vtok[string(s.Value)] = uint64(len(r.vtok) + 1)
 		}
@@ -448,6 +481,74 @@ func c20Exec(in c20Input) (rec Record) {
 	ctx, cancel := context.WithCancel(context.Background())
 	defer cancel()
 
+	// the projection of every leaf field; base = the contents "unchanged" refers to (nil: the sentinels)
+	type pokeT struct{ b []byte }
+	var lastPokes []pokeT
+	var lastHandles []int
+	var baseline []reflect.Value
+	observeLeaves := func(base []reflect.Value) []c20Loc {
+		lastPokes, lastHandles = nil, nil
+		var locs []c20Loc
+		for k, l := range leaves {
+			post := ptr.Elem().FieldByIndex(l.Path)
+			ref := c20Pre(l.F.Tid)
+			if base != nil {
+				ref = base[k]
+			}
+			ol := c20Loc{I: l.I, J: l.J, Unch: c20Same(l.F.Tid, post, ref)}
+			switch l.F.Tid {
+			case c20TidBytes:
+				ol.Vt = r.tokOf(post.Bytes())
+				if !ol.Unch {
+					lastPokes = append(lastPokes, pokeT{post.Bytes()})
+				}
+			case c20TidString:
+				ol.Vt = r.tokOf([]byte(post.String()))
+			case c20TidHandle:
+				if s := post.Interface().(setec.Secret); s != nil {
+					ol.Vt = r.tokOf(s.Get())
+					if !ol.Unch {
+						lastHandles = append(lastHandles, len(locs))
+					}
+				} else {
+					ol.Vt = 999996
+				}
+			case c20TidUnmVal, c20TidUnmNil, c20TidUnmSet:
+				var rc *C20Rec
+				if l.F.Tid == c20TidUnmVal {
+					x := post.Interface().(C20Rec)
+					rc = &x
+				} else {
+					rc = post.Interface().(*C20Rec)
+				}
+				switch {
+				case rc == nil || rc.N == 0:
+					ol.Vt = 0
+				case rc.N == 1:
+					ol.Vt = r.tokOf(rc.Got)
+				default:
+					ol.Vt = 999995
+				}
+			}
+			ol.Dt = r.dtokOf(l.F.Tid, post)
+			ol.Show = c20Show(post)
+			locs = append(locs, ol)
+		}
+		return locs
+	}
+	// JSON decode tables for the types that have a field whose tag mentions json
+	var jt []string
+	seen := map[int]bool{}
+	for _, l := range leaves {
+		if l.F.Tag != nil && strings.Contains(*l.F.Tag, "json") && !seen[l.F.Tid] {
+			seen[l.F.Tid] = true
+			jt = append(jt, r.jsonTable(l.F.Tid)...)
+		}
+	}
+
+	finalSvc, finalCl := in.Svc, cl
+	var extraStores []*setec.Store
+
 	func() {
 		defer func() {
 			if p := recover(); p != nil {
@@ -472,6 +573,115 @@ func c20Exec(in c20Input) (rec Record) {
 			}
 			obs.Reqs = append([]string{}, cl.log...)
 			sort.Strings(obs.Reqs)
+		case "reapply":
+			// ONE parsed Fields, applied twice: nothing of the first Apply may survive in the Fields value
+			st1, err := setec.NewStore(ctx, setec.StoreConfig{Client: cl, Secrets: in.Declared, AllowLookup: in.Allow,
+				PollInterval: -1, Logf: logf})
+			if err != nil {
+				obs.ErrClass = 9
+				runErr = err
+				return
+			}
+			extraStores = append(extraStores, st1)
+			cl.log = nil
+			f, err := setec.ParseFields(arg, in.Prefix)
+			if err != nil {
+				obs.ErrClass = 1
+				runErr = err
+				break
+			}
+			o1 := c20Obs{Intact: true}
+			if err1 := f.Apply(ctx, st1); err1 != nil {
+				o1.ErrClass, o1.NErrs = 2, c20CountErrs(err1)
+				o1.Err = err1.Error()
+				if len(o1.Err) > 300 {
+					o1.Err = o1.Err[:300]
+				}
+			}
+			o1.Reqs = append([]string{}, cl.log...)
+			o1.Locs = observeLeaves(nil)
+			obs.First = &o1
+			// between the two: handle fields, json-verb fields and the types only json can fill go back to their
+			// sentinel (their projections are relative to it); []byte and string fields keep what they hold;
+			// unmarshaler fields keep the bytes they recorded, only their call counter is zeroed
+			for _, l := range leaves {
+				fv := ptr.Elem().FieldByIndex(l.Path)
+				// (a set-up decision, not a comparison: a field decoded with the json verb has no
+				// UnmarshalBinary bound to it, so it can be put back completely)
+				jsonVerb := false
+				if l.F.Tag != nil {
+					if parts := strings.Split(*l.F.Tag, ","); len(parts) > 1 {
+						jsonVerb = slices.Contains(parts[1:], "json")
+					}
+				}
+				switch {
+				case l.F.Tid == c20TidHandle || l.F.Tid >= 6 || jsonVerb:
+					fv.Set(c20Pre(l.F.Tid))
+				case l.F.Tid == c20TidUnmVal:
+					x := fv.Interface().(C20Rec)
+					x.N = 0
+					fv.Set(reflect.ValueOf(x))
+				case l.F.Tid == c20TidUnmNil || l.F.Tid == c20TidUnmSet:
+					// the pointer itself stays: ParseFields bound UnmarshalBinary to THIS object
+					if x := fv.Interface().(*C20Rec); x != nil {
+						x.N = 0
+					}
+				}
+			}
+			baseline = make([]reflect.Value, len(leaves))
+			for k, l := range leaves {
+				baseline[k] = c20Snap(l.F.Tid, ptr.Elem().FieldByIndex(l.Path))
+			}
+			if in.Same {
+				// new versions for the same store
+				cl.mu.Lock()
+				merged := map[string]c20Secret{}
+				var order []string
+				for _, s := range in.Svc {
+					merged[s.Name] = s
+					order = append(order, s.Name)
+				}
+				for _, s := range in.Svc2 {
+					if _, ok := merged[s.Name]; !ok {
+						order = append(order, s.Name)
+					}
+					merged[s.Name] = s
+					cl.vals[s.Name] = &api.SecretValue{Value: append([]byte{}, s.Value...), Version: 2}
+				}
+				cl.mu.Unlock()
+				finalSvc = nil
+				for _, n := range order {
+					finalSvc = append(finalSvc, merged[n])
+				}
+				if err := st1.Refresh(ctx); err != nil {
+					obs.ErrClass = 9
+					runErr = err
+					return
+				}
+				st = st1
+				extraStores = nil
+			} else {
+				cl2 := &c20Client{vals: map[string]*api.SecretValue{}}
+				for _, s := range in.Svc2 {
+					cl2.vals[s.Name] = &api.SecretValue{Value: append([]byte{}, s.Value...), Version: 1}
+				}
+				cl2.onMiss = cancel
+				st2, err := setec.NewStore(ctx, setec.StoreConfig{Client: cl2, Secrets: in.Declared2, AllowLookup: in.Allow2,
+					PollInterval: -1, Logf: logf})
+				cl2.onMiss = nil
+				if err != nil {
+					obs.ErrClass = 9
+					runErr = err
+					return
+				}
+				st, finalSvc, finalCl = st2, in.Svc2, cl2
+			}
+			finalCl.log = nil
+			if err := f.Apply(ctx, st); err != nil {
+				obs.ErrClass = 2
+				runErr = err
+			}
+			obs.Reqs = append([]string{}, finalCl.log...)
 		case "decl":
 			// the documented way to declare a struct's secrets by hand: the names come from Secrets(),
 			// the store is built over them, then the SAME Fields value is applied
@@ -552,6 +762,9 @@ func c20Exec(in c20Input) (rec Record) {
 	if st != nil {
 		defer st.Close()
 	}
+	for _, x := range extraStores {
+		defer x.Close()
+	}
 	if runErr != nil {
 		obs.Err = runErr.Error()
 		if len(obs.Err) > 300 {
@@ -563,61 +776,12 @@ func c20Exec(in c20Input) (rec Record) {
 		obs.NErrs = 0
 	}
 
-	// JSON decode tables for the types that have a field whose tag mentions json
-	var jt []string
-	seen := map[int]bool{}
-	for _, l := range leaves {
-		if l.F.Tag != nil && strings.Contains(*l.F.Tag, "json") && !seen[l.F.Tid] {
-			seen[l.F.Tid] = true
-			jt = append(jt, r.jsonTable(l.F.Tid)...)
-		}
-	}
-
 	// every leaf field after the run
-	type pokeT struct{ b []byte }
-	var pokes []pokeT
-	var handles []int
-	for _, l := range leaves {
-		post := ptr.Elem().FieldByIndex(l.Path)
-		ol := c20Loc{I: l.I, J: l.J, Unch: c20Same(l.F.Tid, post, c20Pre(l.F.Tid))}
-		switch l.F.Tid {
-		case c20TidBytes:
-			ol.Vt = r.tokOf(post.Bytes())
-			if !ol.Unch {
-				pokes = append(pokes, pokeT{post.Bytes()})
-			}
-		case c20TidString:
-			ol.Vt = r.tokOf([]byte(post.String()))
-		case c20TidHandle:
-			if s := post.Interface().(setec.Secret); s != nil {
-				ol.Vt = r.tokOf(s.Get())
-				if !ol.Unch {
-					handles = append(handles, len(obs.Locs))
-				}
-			} else {
-				ol.Vt = 999996
-			}
-		case c20TidUnmVal, c20TidUnmNil, c20TidUnmSet:
-			var rc *C20Rec
-			if l.F.Tid == c20TidUnmVal {
-				x := post.Interface().(C20Rec)
-				rc = &x
-			} else {
-				rc = post.Interface().(*C20Rec)
-			}
-			switch {
-			case rc == nil || rc.N == 0:
-				ol.Vt = 0
-			case rc.N == 1:
-				ol.Vt = r.tokOf(rc.Got)
-			default:
-				ol.Vt = 999995
-			}
-		}
-		ol.Dt = r.dtokOf(l.F.Tid, post)
-		ol.Show = c20Show(post)
+	for k, ol := range observeLeaves(baseline) {
+		_ = k
 		obs.Locs = append(obs.Locs, ol)
 	}
+	pokes, handles := lastPokes, lastHandles
 
 	// overwrite every populated []byte field in place, then re-read the store
 	for _, p := range pokes {
@@ -627,7 +791,7 @@ func c20Exec(in c20Input) (rec Record) {
 	}
 	obs.Intact = true
 	if st != nil {
-		for _, s := range in.Svc {
+		for _, s := range finalSvc {
 			if h := c20SafeSecret(st, s.Name); h != nil && !bytes.Equal(h.Get(), s.Value) {
 				obs.Intact = false
 			}
@@ -636,13 +800,13 @@ func c20Exec(in c20Input) (rec Record) {
 
 	// liveness and binding of handle fields: give every name a second version, refresh, read
 	if st != nil && obs.Panic == "" {
-		cl.mu.Lock()
-		for i, s := range in.Svc {
+		finalCl.mu.Lock()
+		for i, s := range finalSvc {
 			v2 := []byte(fmt.Sprintf("v2#%d#%s", i, s.Name))
-			cl.vals[s.Name] = &api.SecretValue{Value: v2, Version: 2}
+			finalCl.vals[s.Name] = &api.SecretValue{Value: v2, Version: 3}
 			r.v2tok[string(v2)] = uint64(1000 + i)
 		}
-		cl.mu.Unlock()
+		finalCl.mu.Unlock()
 		rerr := st.Refresh(ctx)
 		for _, k := range handles {
 			l := leaves[k]
@@ -663,6 +827,9 @@ func c20Exec(in c20Input) (rec Record) {
 	if in.Mode == "decl" {
 		md = "MDecl"
 	}
+	if in.Mode == "reapply" {
+		md = "MRe"
+	}
 	var a string
 	switch in.Arg {
 	case "ptr":
@@ -676,7 +843,7 @@ func c20Exec(in c20Input) (rec Record) {
 	default:
 		a = "AN"
 	}
-	var svc, unmfail []string
+	var svc, svc2, unmfail []string
 	failSeen := map[uint64]bool{}
 	for _, s := range in.Svc {
 		t := r.vtok[string(s.Value)]
@@ -686,10 +853,32 @@ func c20Exec(in c20Input) (rec Record) {
 			unmfail = append(unmfail, fmt.Sprint(t))
 		}
 	}
+	if in.Mode == "reapply" {
+		// the service the second Apply runs against (for the same store: the merged view, new versions)
+		for _, s := range finalSvc {
+			t := r.vtok[string(s.Value)]
+			ver := 1
+			if in.Same {
+				ver = 2
+			}
+			svc2 = append(svc2, fmt.Sprintf("(%s,(%d,%d))", coqBytes([]byte(s.Name)), ver, t))
+			if len(s.Value) > 0 && s.Value[0] == '!' && !failSeen[t] {
+				failSeen[t] = true
+				unmfail = append(unmfail, fmt.Sprint(t))
+			}
+		}
+	}
 	mkHead := func(sec1, sec2 []string) string {
 		mdTail := ""
 		if in.Mode == "decl" {
 			mdTail = " " + c20CoqNames(sec1) + " " + c20CoqNames(sec2)
+		}
+		if in.Mode == "reapply" {
+			o1 := "(Ob 1 0 [] [] true)"
+			if obs.First != nil {
+				o1 = obs.First.coq()
+			}
+			mdTail = fmt.Sprintf(" %s %s %s %s %s", coqBool(in.Same), coqBool(in.Allow2), c20CoqNames(in.Declared2), coqList(svc2), o1)
 		}
 		return fmt.Sprintf("CRun (%s %s %s%s) %s %s %s %s %s ", md, coqBool(in.Allow), c20CoqNames(in.Declared), mdTail, a,
 			coqBytes([]byte(in.Prefix)), coqList(svc), coqList(unmfail), coqList(jt))
@@ -1150,11 +1339,16 @@ func c20Generate(r *rand.Rand) c20Input {
 	switch x := r.IntN(20); {
 	case x < 6:
 		in.Mode = "new"
-	case x < 11:
+	case x < 10:
 		in.Mode = "decl" // declare via Secrets(), then Apply
 		in.Scribble = []string{"", "", "sort", "reverse", "overwrite", "clear", "rotate"}[r.IntN(7)]
 		in.Copy = r.IntN(5) == 0
+	case x < 14:
+		in.Mode = "reapply" // one Fields applied to two stores, or twice to one store across a Refresh
+		in.Same = r.IntN(20) < 7
+		in.Allow2 = r.IntN(2) == 0
 	}
+	applyLike := in.Mode == "apply" || in.Mode == "reapply"
 	switch r.IntN(50) {
 	case 0, 1:
 		in.Arg = "struct"
@@ -1233,14 +1427,49 @@ func c20Generate(r *rand.Rand) c20Input {
 	}
 	walk(in.Fields)
 	for _, full := range order {
-		if in.Mode == "apply" && r.IntN(100) < 8 {
+		if applyLike && r.IntN(100) < 8 {
 			continue // the service does not have it
 		}
 		w := wants[full]
 		v := c20Value(r, w.tid, w.json)
 		in.Svc = append(in.Svc, c20Secret{Name: full, Value: v, Text: fmt.Sprintf("%q", v)})
-		if in.Mode == "apply" && (r.IntN(2) == 0 || (!in.Allow && r.IntN(10) < 8)) {
+		if applyLike && (r.IntN(2) == 0 || (!in.Allow && r.IntN(10) < 8)) {
 			in.Declared = append(in.Declared, full)
+		}
+	}
+	if in.Mode == "reapply" {
+		// the second service: for (almost) every name the fields ask for, OTHER bytes than the first one
+		// serves - also for names the first service did not have (then a field that failed the first time
+		// is filled the second time)
+		first := map[string][]byte{}
+		for _, s := range in.Svc {
+			first[s.Name] = s.Value
+		}
+		for _, full := range order {
+			if !in.Same && r.IntN(100) < 6 {
+				continue // the second service does not have it
+			}
+			w := wants[full]
+			v := c20Value(r, w.tid, w.json)
+			for k := 0; k < 4 && bytes.Equal(v, first[full]); k++ {
+				v = c20Value(r, w.tid, w.json)
+			}
+			if old, ok := first[full]; ok && bytes.Equal(v, old) {
+				if w.json {
+					v = append([]byte(" "), v...) // same JSON, other bytes
+				} else {
+					v = append(append([]byte{}, v...), "#2"...)
+				}
+			}
+			in.Svc2 = append(in.Svc2, c20Secret{Name: full, Value: v, Text: fmt.Sprintf("%q", v)})
+			if !in.Same && (r.IntN(10) < 7 || (!in.Allow2 && r.IntN(10) < 8)) {
+				in.Declared2 = append(in.Declared2, full)
+			}
+		}
+		if !in.Same && len(in.Declared2) == 0 && !in.Allow2 {
+			v := []byte("dummy2")
+			in.Svc2 = append(in.Svc2, c20Secret{Name: "zz/declared2", Value: v, Text: `"dummy2"`})
+			in.Declared2 = append(in.Declared2, "zz/declared2")
 		}
 	}
 	// decoys: the bare names and a leading-slash form, so that a wrongly joined name finds something else
@@ -1258,7 +1487,7 @@ func c20Generate(r *rand.Rand) c20Input {
 	if (in.Mode == "new" && r.IntN(3) == 0 || in.Mode == "decl" && r.IntN(4) == 0) && len(in.Svc) > 0 {
 		in.Declared = append(in.Declared, in.Svc[r.IntN(len(in.Svc))].Name)
 	}
-	if in.Mode == "apply" && len(in.Declared) == 0 && !in.Allow {
+	if applyLike && len(in.Declared) == 0 && !in.Allow {
 		v := []byte("dummy")
 		in.Svc = append(in.Svc, c20Secret{Name: "zz/declared", Value: v, Text: `"dummy"`})
 		in.Declared = append(in.Declared, "zz/declared")
@@ -1408,14 +1637,19 @@ func c20Main(o Opts) {
 	}
 	r := NewRand(o.Seed, 20)
 	var selfSrc []Record
-	ndecl := 0
+	ndecl, nre := 0, 0
 	for i := 0; i < nrun; i++ {
 		rec := c20Exec(c20Generate(r))
 		rec.ID = out.n
 		out.Emit(rec)
 		if len(selfSrc) < 10 && i%37 == 5 {
 			selfSrc = append(selfSrc, rec)
-		} else if in := rec.Input.(c20Input); ndecl < 3 && in.Mode == "decl" {
+		} else if in := rec.Input.(c20Input); nre < 3 && in.Mode == "reapply" && in.Arg == "ptr" {
+			if f, ok := rec.Obs.(c20Full); ok && f.Obs.ErrClass == 0 && f.Obs.First != nil {
+				selfSrc = append(selfSrc, rec) // the variants alter what was observed after the SECOND Apply
+				nre++
+			}
+		} else if ndecl < 3 && in.Mode == "decl" {
 			if f, ok := rec.Obs.(c20Full); ok && f.Obs.ErrClass == 0 && len(f.Obs.Sec2) >= 2 {
 				selfSrc = append(selfSrc, rec)
 				ndecl++
